@@ -9,8 +9,8 @@ def Valid (P : Params) : Prop :=
   -- the error flag is one bit of the flag byte, distinct from the codec's bits
   (P.errFlag = 16 ∧ P.compressedFlag = 1 ∧ P.encryptedFlag = 2) ∧
   P.ptypePacket = 0 ∧
-  -- the model's `int`/`uint` are 64 bits wide
-  P.intSize = 64 ∧
+  -- the platform word is one of the two Go has: `int`/`uint` values are 32 or 64 bits wide
+  (P.intSize = 32 ∨ P.intSize = 64) ∧
   -- integers print in decimal and parse as decimal int64
   P.fmtBase = 10 ∧ P.parseBase = 10 ∧ P.parseBits = 64 ∧
   -- the varint scratch arrays hold every 64-bit value
@@ -171,12 +171,12 @@ def Supported : GoVal → Prop
   | .unsupported => False
   | _ => True
 
-theorem setBody_normal {v b : GoVal} (hs : Supported v) (h : setBody v = .ok b) : Normal b := by
+theorem setBody_normal {P : Params} {v b : GoVal} (hs : Supported v) (h : setBody P v = .ok b) : Normal b := by
   cases v <;> simp only [setBody, Res.ok.injEq, reduceCtorEq] at h <;> first
     | (subst h; constructor)
     | exact absurd hs (by simp [Supported])
 
-theorem setBody_total {v : GoVal} (hs : Supported v) : ∃ b, setBody v = .ok b := by
+theorem setBody_total (P : Params) {v : GoVal} (hs : Supported v) : ∃ b, setBody P v = .ok b := by
   cases v <;> first
     | exact ⟨_, rfl⟩
     | exact absurd hs (by simp [Supported])
@@ -452,5 +452,40 @@ theorem widen_nonfinite (b : BitVec 32) (h : b.toNat / 2 ^ 23 % 256 = 255) :
     obtain ⟨f1, f2, f3⟩ := f64_fields (s := b.toNat / 2 ^ 31) (e := 2047) (m := m * 2 ^ 29 ||| 2 ^ 51) hs (by omega) hor
     simp only at f1 f2 f3 ⊢
     exact ⟨f1, f2, by rw [f3]; simp [hm0, hpos]⟩
+
+/-! ### either NaN convention -/
+
+theorem widenOn_of_not_nan (c : Bool) (b : BitVec 32) (h : isNaN32 b = false) : widenOn c b = widen b := by
+  unfold widenOn; rw [h]; simp
+
+/-- exactness does not depend on the NaN convention: finite values are not NaNs -/
+theorem widenOn_exact (c : Bool) (b : BitVec 32) (v : Bool × Nat) (h : f32Scaled b = some v) :
+    f64Scaled (widenOn c b) = some v := by
+  have hfin : b.toNat / 2 ^ 23 % 256 ≠ 255 := by
+    intro he; unfold f32Scaled at h; simp only at h; rw [if_pos he] at h; cases h
+  rw [widenOn_of_not_nan c b (by unfold isNaN32; simp [hfin])]
+  exact widen_exact b v h
+
+/-- ±Inf widens to ±Inf (same sign) and a NaN to a NaN, under either convention -/
+theorem widenOn_nonfinite (c : Bool) (b : BitVec 32) (h : b.toNat / 2 ^ 23 % 256 = 255) :
+    (widenOn c b).toNat / 2 ^ 52 % 2048 = 2047 ∧
+    ((widenOn c b).toNat % 2 ^ 52 = 0 ↔ b.toNat % 2 ^ 23 = 0) ∧
+    (b.toNat % 2 ^ 23 = 0 → (widenOn c b).toNat / 2 ^ 63 = b.toNat / 2 ^ 31) := by
+  obtain ⟨w1, w2, w3⟩ := widen_nonfinite b h
+  by_cases hm : b.toNat % 2 ^ 23 = 0
+  · rw [widenOn_of_not_nan c b (by unfold isNaN32; simp [hm])]
+    exact ⟨w2, w3, fun _ => w1⟩
+  · cases c with
+    | false =>
+      have hw : widenOn false b = widen b := by unfold widenOn; simp
+      rw [hw]; exact ⟨w2, w3, fun _ => w1⟩
+    | true =>
+      have hn : isNaN32 b = true := by unfold isNaN32; simp [h, hm]
+      have hw : widenOn true b = canonNaN64 := by unfold widenOn; rw [hn]; rfl
+      rw [hw]
+      refine ⟨by decide, ?_, fun h0 => absurd h0 hm⟩
+      constructor
+      · intro h0; exact absurd h0 (by decide)
+      · intro h0; exact absurd h0 hm
 
 end Fatchoy.C07
